@@ -3,6 +3,9 @@ package props
 import (
 	"fmt"
 
+	"github.com/paulsonkoly/calc/flags"
+	"github.com/paulsonkoly/calc/parser"
+	"github.com/paulsonkoly/calc/types/node"
 	"github.com/paulsonkoly/calc/vm"
 
 	"verif/ast"
@@ -319,15 +322,77 @@ func c09Residue(ctx *core.Ctx, idx int) core.Result {
 	return res
 }
 
+// c09Flags: the machine is as clean after a statement when the REPL/file loop runs it with its display options
+// on (-ast, -bytecode) as without them: the statements of a typed session go through processInput one input
+// each, and the hooked counts are read after every input.
+func c09Flags(ctx *core.Ctx, idx int) core.Result {
+	r := core.CaseRng(ctx.Seed, "C09/flags", idx)
+	var res core.Result
+	o := gen.DefaultOpts()
+	o.MaxDepth = r.Range(1, 3)
+	o.MaxStmts = r.Range(1, 3)
+	g := gen.New(r, o)
+	stmts := append(g.Helpers(), g.Session(r.Range(2, 6))...)
+	doOut := r.Bool()
+	astOn, bcOn := idx%3 != 2, idx%3 != 0
+	res.Hash = core.Mix(sessionHash(stmts) ^ uint64(idx%3))
+	in := map[string]any{"session": sessionText(stmts), "repl_mode": doOut, "ast_flag": astOn, "bytecode_flag": bcOn}
+	calcrun.SetStdin("line\n")
+	ses := calcrun.NewSession()
+	ref := rs.New()
+	ref.SetStdin("line\n")
+	oldA, oldB := *flags.AstFlag, *flags.ByteCodeFlag
+	*flags.AstFlag, *flags.ByteCodeFlag = astOn, bcOn
+	defer func() { *flags.AstFlag, *flags.ByteCodeFlag = oldA, oldB }()
+	for i, st := range stmts {
+		if d := ast.Denotable(st); d != "" {
+			return core.Result{Verdict: core.Inconclusive, Reason: "undenotable: " + d}
+		}
+		if w := ref.Exec(st); w.Ambiguous != "" || w.Budget || w.TooBig {
+			break // (outside the agreed region or too long for the reference: the session ends here)
+		}
+		src := ast.Print(st, nil)
+		before := ses.State()
+		var pan any
+		vm.VerifReset()
+		vm.VerifMon.StepLimit = 5000000
+		func() {
+			defer func() { pan = recover() }()
+			calcrun.Capture(func() { node.VerifProcessInput(src, parser.Type{}, ses.VM, doOut) })
+		}()
+		vm.VerifMon.StepLimit = 0
+		if _, lim := pan.(vm.VerifStepLimitHit); lim {
+			return core.Result{Verdict: core.Inconclusive, Reason: "diverged (VM step limit)"}
+		}
+		if pan != nil {
+			res.Verdict = core.Violated
+			res.Viol = &core.Violation{Monitor: "no-abort", Detail: fmt.Sprintf("statement %d %q with the display flags on: %v", i, trunc(src, 200), pan), Input: in}
+			return res
+		}
+		after := ses.State()
+		if after.Residue() != before.Residue() && after.Residue() != [4]int{0, 0, 0, 0} {
+			res.Verdict = core.Violated
+			res.Viol = &core.Violation{Monitor: "residue", Detail: fmt.Sprintf("statement %d %q run by the input loop with -ast=%v -bytecode=%v leaves (sp, frames, closures, contexts) %v -> %v", i, trunc(src, 200), astOn, bcOn, before.Residue(), after.Residue()), Input: in}
+			return res
+		}
+		res.Add("statements_with_display_flags", 1)
+	}
+	res.Verdict = core.Held
+	res.Nontrivial = true
+	res.Sample = in
+	return res
+}
+
 func init() {
 	register(&core.Property{
 		ID:          "C09",
-		Rule:        "(1) residue: typed sessions (as in C01) and the directed corpus in REPL and script mode, (sp, frames, closures, live contexts) compared before/after every statement (after a failing statement all must be 0 and the main instruction pointer at the end of the code); (2) N-scaling: programs whose last statement is a loop of N iterations — while, for, zipped for, nested for, for inside a function, loop over a generator that itself loops — with every statement form as the last statement of the body (expression, if with computed and with constant body, if/else, inner for, inner zipped for with a call-free iterator expression, inner while, call, array literal, assignment, a yield without consumer), run with N = 3, 30, 300; max stack pointer per memory kind and max live contexts at back-edges must not depend on N. non-trivial = >= 25 reference steps with a call or loop (residue) / >= 100 back-edges sampled (scaling).",
+		Rule:        "(1) residue: typed sessions (as in C01) and the directed corpus in REPL and script mode, (sp, frames, closures, live contexts) compared before/after every statement (after a failing statement all must be 0 and the main instruction pointer at the end of the code); (2) N-scaling: programs whose last statement is a loop of N iterations — while, for, zipped for, nested for, for inside a function, loop over a generator that itself loops — with every statement form as the last statement of the body (expression, if with computed and with constant body, if/else, inner for, inner zipped for with a call-free iterator expression, inner while, call, array literal, assignment, a yield without consumer), run with N = 3, 30, 300; max stack pointer per memory kind and max live contexts at back-edges must not depend on N; (3) flags: typed sessions fed to the input loop (processInput) one statement per input with -ast / -bytecode display on, the same counts read after every input. non-trivial = >= 25 reference steps with a call or loop (residue) / >= 100 back-edges sampled (scaling).",
 		Assumptions: []string{"the operand stack holds fixed-size value headers, so live data size does not enter the stack pointer"},
 		Families: []core.Family{
 			{Name: "corpus", Count: func(string) int { return len(corpusSessions()) * 2 * len(stressModes) }, Run: func(_ *core.Ctx, idx int) core.Result { return corpusCase("C09", idx, true) }},
 			{Name: "residue", Count: countFn(12000, 500000), Run: c09Residue},
 			{Name: "scaling", Count: countFn(5000, 150000), Run: c09Scaling},
+			{Name: "flags", Count: countFn(900, 30000), Run: c09Flags},
 		},
 		Floors: []core.Floor{{Key: "statements_compared", Quick: 10000, Thor: 1000000}, {Key: "scaling_triples", Quick: 1000, Thor: 100000}, {Key: "back_edges_sampled", Quick: 200000, Thor: 20000000}, {Key: "tag:loop:", Quick: 14, Thor: 14}},
 	})
